@@ -878,7 +878,6 @@ func modifiedSinceGuard(f *Func, g *Graph, loc Loc, index ast.Expr, xs string) b
 	return false
 }
 
-
 // lookaheadCallersHaveToken: the look-ahead `tokens[cur+1]` of a TokenList method is guarded in the method against
 // cur == len-1 only; cur == len (the cursor past the last token) is excluded where every caller asks for the next
 // token only after it has seen that there is a current one — the call is the right operand of `&&` after a
